@@ -1,12 +1,14 @@
 //! package `meta`: side / header metadata (C20–C25)
 pub mod hdr;
 pub mod sanity;
+pub mod side;
 
 pub fn dispatch(tokens: &[&str]) -> Option<String> {
     let (c, args) = tokens.split_first()?;
     Some(match *c {
         "sanity" => sanity::run(args),
         "hdr" => hdr::run(args),
+        "side" => side::run(args),
         _ => return None,
     })
 }
